@@ -9,7 +9,8 @@ Definition case := (nat * nat * nat * nat * list (list (list Z)) * list (nat * n
 
 Definition mk_cfg (m n qc r : nat) (it : list (list (list Z))) : cfg :=
   {| nsup := m; ncons := n; qcap := qc; rounds := r;
-     items := fun rd s => nth s (nth rd it []) [] |}.
+     items := fun rd s => nth s (nth rd it []) [];
+     early := fun _ _ => [] |}.
 
 Definition label_of (t : nat) (ex : bool) : option label :=
   match t with
